@@ -4,7 +4,7 @@
   (`scalars.scalar_value(param, step)`); an instance recovered from its history creates fresh schedule
   objects and first evaluates them at the current step.  Both variants of `StepWise.call` are modelled:
   the pinned one keeps a phase counter that advances only when it is called with exactly the last step of
-  the current phase; the repaired one (fixes/C15-F240.patch) is a function of `step`.
+  the current phase; the repaired one (/repo df4963a) is a function of `step`.
 -/
 namespace Pg.C15.Sched
 
@@ -41,22 +41,23 @@ def callStateful (phases : List (Nat × PV)) (st : State) (step : Nat) : Option 
     let phase' := if (step : Int) = ends.getD st.phase 0 then st.phase + 1 else st.phase
     (some v, ⟨phase', some v⟩)
 
-/-- the repaired `StepWise.call`: the phase is looked up from the boundaries -/
-def lookup : List (Nat × PV) → List Int → Int → Int → Option Int
-  | (_, pv) :: rest, e :: es, start, step =>
-    if step ≤ e then some (pv.eval (step - start)) else lookup rest es (max start (e + 1)) step
-  | _, _, _, _ => none
+/-- the repaired `StepWise.call` (/repo df4963a): a function of the step —
+`step = max(0, min(step, ending_steps[-1]))`, then the first phase whose ending step is not exceeded
+(the last phase at the latest). `none`: no phases (IndexError in the code). -/
+def findPhase (ends : List Int) (step : Int) : Nat → Nat → Nat
+  | 0, phase => phase
+  | fuel + 1, phase =>
+    if phase + 1 < ends.length ∧ step > ends.getD phase 0 then findPhase ends step fuel (phase + 1) else phase
 
 def callStateless (phases : List (Nat × PV)) (step : Nat) : Option Int :=
   let ends := endings phases 0
-  match lookup phases ends 0 step with
-  | some v => some v
-  | none =>
-    match phases.getLast? with
-    | none => none
-    | some (_, pv) =>
-      let lastStart : Int := if phases.length > 1 then max 0 (ends.getD (phases.length - 2) 0 + 1) else 0
-      some (pv.eval (ends.getD (phases.length - 1) 0 - lastStart))
+  match ends.getLast?, phases with
+  | some lastEnd, _ :: _ =>
+    let s : Int := max 0 (min (step : Int) lastEnd)
+    let phase := findPhase ends s ends.length 0
+    let start : Int := if phase > 0 then ends.getD (phase - 1) 0 + 1 else 0
+    (phases[phase]?).map fun p => p.2.eval (s - start)
+  | _, _ => none
 
 /-- the values an instance sees when it is called at the given steps, in order -/
 def run (stateful : Bool) (phases : List (Nat × PV)) : State → List Nat → List (Option Int)
